@@ -416,7 +416,9 @@ func runProp[C any](t *testing.T, id string, check func(C, *Rec) *Violation, exh
 	if found, replayed = replayAll(t, id, rec); found != nil {
 		return
 	}
-	if exhaustive != nil && shard() == 0 {
+	if exhaustive != nil {
+		// the function partitions its space over the shards itself (or runs
+		// on shard 0 only)
 		if found = exhaustive(rec); found != nil {
 			return
 		}
@@ -428,6 +430,8 @@ func runProp[C any](t *testing.T, id string, check func(C, *Rec) *Violation, exh
 		}
 		var last *replayFile
 		_ = flag.Set("rapid.checks", strconv.Itoa(p.checks))
+		_ = flag.Set("rapid.nofailfile", "true")
+		_ = os.RemoveAll(filepath.Join("testdata", "rapid"))
 		ok := t.Run(p.name, func(t *testing.T) {
 			rapid.Check(t, func(rt *rapid.T) {
 				c := p.gen(rt)
